@@ -69,6 +69,14 @@ def instances(tier):
             extra=["fs file $R/openc.conf %s" % enc('i = 1 /* never closed ' + "c" * 40)])
         add("include-open-comment-long-%d" % cf, cf, 'include("$R/openl.conf")\n' + "t" * 100 + ' */\ns = after', None,
             extra=["fs file $R/openl.conf %s" % enc('i = 1 /* ' + "c" * 5000)])
+    # comments without a body where a name is expected, with annotation support: first thing in the text, after an
+    # include returned, after a section with a parsed list default was created
+    cm = FLAGBITS["COMMENTS"]
+    for k, body in enumerate(("/**/", "/* */", "/***/", "#", "//", "#\n#")):
+        add("empty-comment-first-%d" % k, cm, body + "\ns = x", 0, expect={"s": ["x"]})
+        add("empty-comment-after-include-%d" % k, cm, 'include("$R/one.conf")\n' + body + "\ns = y", 0,
+            extra=["fs file $R/one.conf %s" % enc("i = 1")], expect={"s": ["y"]})
+        add("empty-comment-last-%d" % k, cm, "s = z " + body, 0, expect={"s": ["z"]})
     add("include-open-sq-inside", 0, 'include("$R/opens.conf")\ns = after', 1,
         extra=["fs file $R/opens.conf %s" % enc("s = 'never closed")])
     # strings whose length sits on the growth steps of the scanner's scratch buffer, each the longest so far
